@@ -116,7 +116,7 @@ def sched_parts(pid: str, tier: str):
     elif pid == "C08":
         mons = ("C08",)
         mk("whole-run-N3", Cfg(N=3, resources="tma", sym_prio=True, routes="dact", monitors=mons), base_req, 600)
-        mk("whole-run-N4-threads", Cfg(N=4, resources="t", sym_prio=True, monitors=mons), base_req, 600, 8)
+        mk("whole-run-N4-threads", Cfg(N=4, resources="t", sym_prio=True, monitors=mons), base_req, 600, 10)
         if not q:
             mk("whole-run-N4", Cfg(N=4, resources="tm", sym_prio=False, monitors=mons), base_req, 1500, 9)
     elif pid == "C09":
